@@ -43,3 +43,10 @@ func (v VerifChannel) SchedInstanceSeqs() []uint32 {
 	}
 	return out
 }
+
+// SchedRequestID returns the current value of the request id counter without advancing it.
+func (v VerifChannel) SchedRequestID() uint32 {
+	v.S.requestIDMu.Lock()
+	defer v.S.requestIDMu.Unlock()
+	return v.S.requestID
+}
